@@ -501,6 +501,7 @@ func runC17Core(c *Ctx, withBackoff bool) {
 	}
 	if gp := w.Func("sshutils/key", "GetPublicKeysFromBytes"); gp != nil {
 		c.Saw(gp)
+		scannerRule(c, "R3.gate", gp, "the CA's answer is")
 		// appends to result 0 and result 1 cells happen in the same block
 		var appendBlocks []*ssa.BasicBlock
 		for _, call := range w.callsInDeep(gp) {
@@ -597,6 +598,23 @@ func runC17Core(c *Ctx, withBackoff bool) {
 			}
 		}
 		c.Check(okCtor, "R1.ctor", "NewSigner|endpoints[i] built from conf.CrypkiEndpoints[i]", w.FnPos(ns), "same range index on both sides", "the constructor does not fill endpoints[i] from the i-th configured endpoint (order not preserved)")
+		// the dial target is the configured endpoint as written: net.JoinHostPort brackets a host that holds a colon, so an
+		// endpoint configured in the bracketed IPv6 form the plain host:port concatenation needs ("[::1]") becomes
+		// "[[::1]]:port" and is never reached (the order of the endpoints that can be contacted changes)
+		{
+			bad := false
+			for _, b := range ctorBlocks {
+				for _, ins := range b.Instrs {
+					if cv, ok := ins.(*ssa.Call); ok && calleeName(cv) == "net.JoinHostPort" && len(cv.Call.Args) == 2 && findIndexOn(cv.Call.Args[0], "CrypkiEndpoints", w, 0) != nil {
+						bad = true
+						c.Bad("R1.ctor", "NewSigner|dial target is the configured endpoint followed by ':' and the port", w.Pos(cv.Pos()), "net.JoinHostPort re-brackets a configured endpoint that contains a colon: a bracketed IPv6 endpoint is turned into an address that cannot be dialled and is skipped")
+					}
+				}
+			}
+			if !bad {
+				c.Ok("R1.ctor", "NewSigner|dial target is the configured endpoint followed by ':' and the port", w.FnPos(ns), "no net.JoinHostPort over a configured endpoint")
+			}
+		}
 		// the endpoint field of the signer is written only by the constructor
 		if endpointField != "" {
 			for _, a := range w.FieldAccesses(owner, endpointField) {
